@@ -326,6 +326,13 @@ def goSymOf (opMap goSym : List (String × String)) (name : String) : Option Str
   | some g => lookup g goSym
   | none => none
 
+/-- `tast_builder.rs`, unsuffixed integer pattern of type `ty`: (Prim variant, parser kind) by the `int_prim_for_ty`
+    table, `_` being its default arm -/
+def patPrimOf (tbl : List (String × String × String)) (ty : String) : Option (String × String) :=
+  match tbl.find? (·.1 == ty) with
+  | some r => some (r.2.1, r.2.2)
+  | none => (tbl.find? (·.1 == "_")).map fun r => (r.2.1, r.2.2)
+
 /-- verbs that render a float in a readable decimal form; `%d` on a float prints `%!d(float32=3.5)` -/
 def floatVerbOk (v : String) : Bool := v = "%g" || v = "%v" || v = "%f" || v = "%G" || v = "%F"
 def intVerbOk (v : String) : Bool := v = "%d" || v = "%v"
